@@ -25,6 +25,8 @@ What is proved here (models: `Model/Constraint.lean` for `fitness()`; `Model/Emi
 * `C02_accept_iff_float`          … and conversely (then the fitness is exactly 1.0)
 * `C02_emit_sound_float`          BINARY64: a tree yielded by `evaluateIndividual` (any state of the memo tables)
                                   satisfies every hard constraint (`denote`) and every computed repetition bound
+* `C02_yield_only_if_float`, `C02_run_yields_only_satisfied_float`   the same at the level of per-constraint results, for one
+                                  evaluation in any state and for every sequence of evaluations (every history)
 * `C02_float_bound_is_needed`     the magnitude bound cannot be dropped: 3 constraints, one with 2^53
                                   combinations of which one fails, ARE accepted by binary64
 
@@ -312,6 +314,58 @@ theorem C02_exception_not_satisfied_float (B : Nat) (hard rep : List (Option Fit
     · obtain ⟨f, hf, _⟩ := ha none h; cases hf
     · obtain ⟨f, hf, _⟩ := hb none h; cases hf
 
+/-- `evaluate_individual` in ANY state of its memo tables (binary64): what it yields is the tree it was
+    called with, and every constraint of that tree succeeded (none raised).  A cached tree yields nothing. -/
+theorem C02_yield_only_if_float (B : Nat) (hard rep : List (Option Fit)) (key k : Int) (st : EvalState)
+    (hh : AllWf hard) (hr : AllWf rep) (dh : DenomLe B hard) (dr : DenomLe B rep)
+    (hbound : (hard.length + rep.length) * 2 ^ B ≤ 2 ^ 50)
+    (h : k ∈ (evaluateIndividual F.one st (individualF key hard rep)).emitted) :
+    k = key ∧ AllSucceed hard ∧ AllSucceed rep := by
+  have hk : k = key ∧ Generated.acceptCmp (individualF key hard rep).fitness F.one = true := by
+    unfold evaluateIndividual at h
+    split at h
+    · simp at h
+    · simp only at h
+      split at h
+      · rename_i he
+        simp only [Generated.emitCondition, Bool.and_eq_true] at he
+        simp only [List.mem_singleton] at h
+        exact ⟨h, he.1⟩
+      · simp at h
+  refine ⟨hk.1, ?_⟩
+  by_cases hpos : 0 < hard.length + rep.length
+  · have hacc := hk.2
+    simp only [individualF, Individual.fitness, List.length_map] at hacc
+    exact C02_accept_only_if_float B hard rep F.one hh hr dh dr hpos hbound hacc
+  · have h1 : hard = [] := by cases hard with
+      | nil => rfl
+      | cons x xs => simp at hpos
+    have h2 : rep = [] := by cases rep with
+      | nil => rfl
+      | cons x xs => simp at hpos
+    subst h1; subst h2
+    simp [AllSucceed]
+
+/-- every generation history (binary64): whatever sequence of trees the search evaluates, from whatever
+    state, each key it yields belongs to an evaluated tree all of whose constraints succeeded -/
+theorem C02_run_yields_only_satisfied_float (B : Nat)
+    (jobs : List (Int × List (Option Fit) × List (Option Fit))) (st : EvalState)
+    (hj : ∀ j ∈ jobs, AllWf j.2.1 ∧ AllWf j.2.2 ∧ DenomLe B j.2.1 ∧ DenomLe B j.2.2 ∧
+      (j.2.1.length + j.2.2.length) * 2 ^ B ≤ 2 ^ 50) :
+    ∀ k ∈ (evaluateAll F.one st (jobs.map (fun j => individualF j.1 j.2.1 j.2.2))).2,
+      ∃ j ∈ jobs, j.1 = k ∧ AllSucceed j.2.1 ∧ AllSucceed j.2.2 := by
+  induction jobs generalizing st with
+  | nil => intro k hk; simp [evaluateAll] at hk
+  | cons j js ih =>
+    intro k hk
+    simp only [List.map_cons, evaluateAll, List.mem_append] at hk
+    rcases hk with hk | hk
+    · obtain ⟨a, b, c, d, e⟩ := hj j (by simp)
+      have := C02_yield_only_if_float B j.2.1 j.2.2 j.1 k st a b c d e hk
+      exact ⟨j, by simp, this.1.symm, this.2⟩
+    · obtain ⟨j', hj', hrest⟩ := ih _ (fun x hx => hj x (by simp [hx])) k hk
+      exact ⟨j', by simp [hj'], hrest⟩
+
 /-- **emit soundness, binary64.**  `cs` are the hard constraints, `gss` what each repetition-bounds
     constraint finds in the tree, `st` ANY state of the evaluator's two memo tables.  If
     `evaluate_individual` (Model/Emit.lean: cache lookup, the generated formula over the generated class
@@ -354,48 +408,25 @@ theorem C02_emit_sound_float (B : Nat) (cs : List Cons) (gss : List (List RepGro
     obtain ⟨gs, hgs, rfl⟩ := List.mem_map.1 hr
     cases hf
     exact repFit_denom_le B gs (hdg gs hgs)
-  by_cases hpos : 0 < (cs.map (outcome OpCfg.fixed t)).length + (gss.map (fun gs => some (repFit gs))).length
-  · -- the tree was not answered from the cache, and the acceptance comparison passed
-    have hacc : Generated.acceptCmp (individualF key (cs.map (outcome OpCfg.fixed t))
-        (gss.map (fun gs => some (repFit gs)))).fitness F.one = true := by
-      unfold evaluateIndividual at h
-      split at h
-      · simp at h
-      · simp only at h
-        split at h
-        · rename_i he
-          simp only [Generated.emitCondition, Bool.and_eq_true] at he
-          exact he.1
-        · simp at h
-    simp only [individualF, Individual.fitness, List.length_map] at hacc
-    have ⟨ha, hb⟩ := C02_accept_only_if_float B _ _ F.one hh hr dh dr hpos
-      (by simpa only [List.length_map] using hbound) (by simpa only [List.length_map] using hacc)
-    constructor
-    · intro c hc
-      obtain ⟨f, hf, hs⟩ := ha (outcome OpCfg.fixed t c) (List.mem_map.2 ⟨c, hc, rfl⟩)
-      unfold outcome at hf
-      cases ho : opFit OpCfg.fixed c t [] [] with
-      | error e => simp [ho] at hf
-      | ok x =>
-        obtain ⟨g, σ', ρ'⟩ := x
-        simp only [ho, Option.some.injEq] at hf
-        subst hf
-        rw [← (opFit_sound c t [] [] g σ' ρ' ho).2.2]
-        exact hs
-    · intro gs hgs
-      obtain ⟨f, hf, hs⟩ := hb (some (repFit gs)) (List.mem_map.2 ⟨gs, hgs, rfl⟩)
-      cases hf
-      rw [← repFit_success]
+  have ⟨_, ha, hb⟩ := C02_yield_only_if_float B _ _ key key st hh hr dh dr
+    (by simpa only [List.length_map] using hbound) h
+  constructor
+  · intro c hc
+    obtain ⟨f, hf, hs⟩ := ha (outcome OpCfg.fixed t c) (List.mem_map.2 ⟨c, hc, rfl⟩)
+    unfold outcome at hf
+    cases ho : opFit OpCfg.fixed c t [] [] with
+    | error e => simp [ho] at hf
+    | ok x =>
+      obtain ⟨g, σ', ρ'⟩ := x
+      simp only [ho, Option.some.injEq] at hf
+      subst hf
+      rw [← (opFit_sound c t [] [] g σ' ρ' ho).2.2]
       exact hs
-  · simp only [List.length_map] at hpos
-    have h1 : cs = [] := by cases cs with
-      | nil => rfl
-      | cons x xs => simp at hpos
-    have h2 : gss = [] := by cases gss with
-      | nil => rfl
-      | cons x xs => simp at hpos
-    subst h1; subst h2
-    simp
+  · intro gs hgs
+    obtain ⟨f, hf, hs⟩ := hb (some (repFit gs)) (List.mem_map.2 ⟨gs, hgs, rfl⟩)
+    cases hf
+    rw [← repFit_success]
+    exact hs
 
 /-- non-vacuity of `C02_emit_sound_float`: the spec / tree of `C02_emit_example`, first evaluation in
     the initial state, `B = 1`: every hypothesis holds (so the conclusion is not vacuous) … -/
